@@ -22,7 +22,7 @@ LEVEL_NOTE = ('covers only the enumerated documents and layout menus; pair place
               'trusted: the renderer/expected-value code in mc/props/c02.py, numpy')
 RULE = ('history shards: two documents with equal structure/column names but different column types read alternately in one process through every channel; document x layout product, layouts in lexicographic order of the menus (simplest first). Non-trivial: the rendering differs from the canonical '
         'rendering of its document (layout index != 0) or is the canonical one of a document (one per document). Distinct: (document id, layout tuple).')
-ASSUMPTIONS = ['comment text contains no quote, #, brace or semicolon (documented pathological cases)',
+ASSUMPTIONS = ['a backslash-newline pair is itself a token separator (as in IDL yanny_nextline): with single-blank separators every second continuation has the backslash directly after the token and the next line starts in column 0', 'comment text contains no quote, #, brace or semicolon (documented pathological cases)',
                'brace-wrapped strings have no leading/trailing blanks, braces or #; array elements are bare or double-quoted',
                'no trailing comments on enum label lines; member declarations one per line, two per line or the whole typedef on one line (coupled to the continuation menu); typedefs precede rows; char[] columns have at least one non-empty value',
                'continuation is used on data rows only (inside a pair value it would change the value text)']
